@@ -139,6 +139,20 @@ pub fn run_gate_sched(case: &Value) -> Value {
                 }
             }
         }
+        // a caller thread that has made OTHER calls of the same operator before (other placements, another input): what it
+        // returns now must not depend on them
+        if let Some(warm) = case.get("warm").and_then(|w| w.as_array()) {
+            let mut other = st.clone(); other.state_vector.reverse();
+            let pool = rayon::ThreadPoolBuilder::new().num_threads(2).build().unwrap();
+            let r = std::panic::catch_unwind(std::panic::AssertUnwindSafe(|| pool.install(|| {
+                for w in warm { let _ = op.apply(&other, &vus(&w[0]), &vus(&w[1])); let _ = op.apply(&st, &vus(&w[0]), &vus(&w[1])); }
+                op.apply(&st, &ts, &cs)
+            })));
+            match r {
+                Ok(res) => keys.push((format!("thr{} after-other-calls", thr), res_key(&res))),
+                Err(pn) => { panicked = Some(panic_json(pn)["msg"].as_str().unwrap_or("?").to_string()); }
+            }
+        }
         // concurrent callers on the shared input (global pool)
         let outs: Vec<Option<String>> = std::thread::scope(|sc| {
             let hs: Vec<_> = (0..callers).map(|_| sc.spawn(|| {
